@@ -874,6 +874,16 @@ func (s *DB) UnmergedVersions(ctx context.Context) ([]string, error) {
 	return others, nil
 }
 
+// Touch moves the creation time that the next committed version will carry
+// forward to t (never back). A handle is stamped when it is opened; a caller
+// that commits long after opening uses Touch so that the version says when it
+// was committed, which is what DeleteHistoricVersions compares its cutoff to.
+func (s *DB) Touch(t time.Time) {
+	if s.crdt.Created == nil || t.After(*s.crdt.Created) {
+		s.crdt.Created = &t
+	}
+}
+
 // IsDirty returns true if there are entries in memory that haven't been Commit()ted.
 func (s DB) IsDirty() bool {
 	return s.tombstoned || s.crdt.IsDirty()
